@@ -29,7 +29,7 @@ def _time():
     t = current_task()
     if t is None:
         return _installed["time"]()
-    return EPOCH + t.sim.now
+    return EPOCH + t.sim.now + getattr(t.sim, "wall_offset", 0.0)
 
 
 def _monotonic():
@@ -89,11 +89,31 @@ def _os_open(path, flags, mode=0o777, *, dir_fd=None):
                 if hook is not None:
                     hook("busy", sim.rel(p))
                 raise
+            # lock files are stamped with the simulated wall clock (applied when somebody looks: the holder still
+            # writes its identity into the file after this open)
+            if not hasattr(sim, "lock_birth"):
+                sim.lock_birth = {}
+            sim.lock_birth[p] = EPOCH + sim.now + getattr(sim, "wall_offset", 0.0)
             hook = getattr(sim, "on_lock", None)
             if hook is not None:
                 hook("acquire", sim.rel(p))
             return fd
     return _installed["os.open"](path, flags, mode, dir_fd=dir_fd)
+
+
+def _make_stat(name):
+    def fn(path, *a, **kw):
+        t = current_task()
+        if t is not None and isinstance(path, str) and path.endswith(".lock"):
+            birth = getattr(t.sim, "lock_birth", {}).get(path)
+            if birth is not None:
+                try:
+                    os.utime(path, (birth, birth))
+                except OSError:
+                    pass
+        return _installed["os." + name](path, *a, **kw)
+    fn.__name__ = name
+    return fn
 
 
 def _os_unlink(path, *, dir_fd=None):
@@ -229,6 +249,10 @@ def install():
     _installed["os.remove"] = os.remove
     _installed["os.rename"] = os.rename
     _installed["os.replace"] = os.replace
+    _installed["os.stat"] = os.stat
+    _installed["os.lstat"] = os.lstat
+    os.stat = _make_stat("stat")
+    os.lstat = _make_stat("lstat")
     os.open = _os_open
     os.unlink = _os_unlink
     os.remove = _os_remove
